@@ -396,6 +396,9 @@ pub(crate) fn apply_insertion_success(insertion_ctx: &mut InsertionContext, succ
     insertion_ctx.solution.required.retain(|j| *j != job);
     insertion_ctx.solution.unassigned.remove(&job);
     insertion_ctx.problem.goal.accept_insertion(&mut insertion_ctx.solution, route_index, &job);
+
+    #[cfg(reinterpretcat_vrp_verif)]
+    verif_notify_insertion(insertion_ctx, route_index, &job);
 }
 
 fn apply_insertion_failure(
